@@ -533,7 +533,20 @@ impl<'a> TokenLexer<'a> {
         let Some(end_pos) = input[skip_bytes..].find('}') else {
             return Token::Error;
         };
-        self.advance_line(end_pos + skip_bytes);
+        // The format options can contain any characters (e.g. as the fill character),
+        // including multi-byte characters and line breaks, so the end position is found by
+        // walking over the consumed characters rather than by assuming one column per byte.
+        let consumed = &input[..end_pos + skip_bytes];
+        let mut position = self.current_position();
+        for c in consumed.chars() {
+            if c == '\n' {
+                position.line += 1;
+                position.column = 0;
+            } else {
+                position.column += c.width().unwrap_or(0) as u32;
+            }
+        }
+        self.advance_to_position(consumed.len(), position);
         self.string_mode_stack.pop(); // StringMode::TemplateExprFormat
         Token::StringLiteral
     }
